@@ -127,11 +127,20 @@ def gen_instance(rng: random.Random, big: bool = False,
     return inst
 
 
-def build_instance(inst: dict):
+def scenario_name(doc, prefix: str = "s") -> str:
+    """A name that is unique per scenario document: state that repo code keys
+    by instance name can then not leak from one scenario into the next (which
+    would make results depend on what a worker executed before)."""
+    from simkit import core
+    return prefix + core.digest(doc)[:12]
+
+
+def build_instance(inst: dict, name: str | None = None):
     from moptipyapps.binpacking2d.instance import Instance
     if "resource" in inst:
         return Instance.from_resource(inst["resource"])
-    return Instance(inst.get("name", "sim"), int(inst["W"]), int(inst["H"]),
+    return Instance(name or inst.get("name", "sim"), int(inst["W"]),
+                    int(inst["H"]),
                     [[int(v) for v in row] for row in inst["items"]])
 
 
